@@ -356,11 +356,16 @@ def case_results(ctx, rng, idx):
 def case_filename(ctx, rng, idx):
     """Template -> file name is deterministic and injective over distinct
     scalar values of the same type."""
-    kind = ["pyint", "pyfloat", "str", "npint", "npfloat"][idx % 5]
+    kind = ["pyint", "pyfloat", "str", "npint", "npfloat", "tinyfloat"][idx % 6]
     vals = []
     seen = set()
     for _ in range(12):
-        v = gen_value(rng, kind)
+        if kind == "tinyfloat":       # close together / tiny magnitudes
+            v = float(rng.integers(1, 50)) * float(rng.choice([1e-13, 1e-14, 1e-16, 1e-20]))
+            if rng.random() < 0.3:
+                v = np.float64(v)
+        else:
+            v = gen_value(rng, kind)
         key = repr(v.item() if isinstance(v, np.generic) else v)
         if key not in seen and "/" not in str(v) and "{" not in str(v) and "}" not in str(v):
             seen.add(key)
